@@ -235,20 +235,313 @@ theorem normalize_near (F : Fl) (G : Grid) (x : ℚ) (k : ℤ) (r : ℚ)
       linarith
     have d6 : |F.fl (F.fl (h * k) + s) - G.g k| ≤
         |F.fl (F.fl (h * k) + s) - (F.fl (h * k) + s)| + |F.fl (h * k) - h * k| + |(h * k + s) - G.g k| := by
-      have a1 := abs_add_le (F.fl (F.fl (h * k) + s) - (F.fl (h * k) + s)) ((F.fl (h * k) + s) - G.g k)
-      have a2 := abs_add_le (F.fl (h * k) - h * k) ((h * k + s) - G.g k)
-      have e2 : (F.fl (h * k) + s) - G.g k = (F.fl (h * k) - h * k) + ((h * k + s) - G.g k) := by ring
-      rw [e2] at a1
-      simp only [sub_add_cancel] at a1
-      have e3 : F.fl (F.fl (h * ↑k) + s) - (F.fl (h * ↑k) + s) + (F.fl (h * ↑k) - h * ↑k + (h * ↑k + s - G.g k))
-          = F.fl (F.fl (h * k) + s) - G.g k := by ring
-      rw [e3] at a1
+      have a1 := abs_sub_le (F.fl (F.fl (h * k) + s)) (F.fl (h * k) + s) (G.g k)
+      have a2 : |(F.fl (h * k) + s) - G.g k| ≤ |F.fl (h * k) - h * k| + |(h * k + s) - G.g k| := by
+        have := abs_add_le (F.fl (h * k) - h * k) ((h * k + s) - G.g k)
+        have e2 : (F.fl (h * k) - h * k) + ((h * k + s) - G.g k) = (F.fl (h * k) + s) - G.g k := by ring
+        rwa [e2] at this
       linarith
     have d7 : e * |F.fl (h * k) + s| ≤ e * ((1 + e) * (h * |(k:ℚ)|) + |s|) := mul_le_mul_of_nonneg_left d4 e0
     unfold Derr at hD
     nlinarith
   have := normalize_core F.fl x h s G.p k m hb hd
   rw [this, label, hm]
+
+
+/-! ### the budget over a horizon, and `timerange` -/
+
+/-- magnitude bound of the grid values `g 0 … g N`. -/
+def Grid.M (G : Grid) (N : ℕ) : ℚ := |G.S| + N * G.H
+
+/-- The explicit hypotheses relating the rounding unit `u`, the magnitude of the grid and the horizon `N`:
+`r` bounds the error of one bare float addition from a label (`hR`), the two budgets of `normalize_near`
+hold at the horizon (`hQ`, `hD`), neighbouring labels stay apart (`hSep`). For IEEE doubles
+(`u = 2^-53`) all of them hold with many orders of magnitude to spare on every realistic grid
+(`budget_nonvacuous`). -/
+structure Budget (F : Fl) (G : Grid) (N : ℕ) (r : ℚ) : Prop where
+  h_pos : 0 < G.h F
+  hQ : Qerr F.u G.S G.H (G.h F) r N < 1/2
+  hD : Derr F.u G.S G.H (G.s F) (G.h F) N < 1 / (2 * pow10 G.p)
+  hR : F.u * ((1 + F.u) * G.M N + G.h F) + F.u * G.M N + F.u * G.H ≤ r
+  hSep : 2 * F.u * G.M N < G.H
+
+theorem Qerr_mono (e S H h r K N : ℚ) (he : 0 ≤ e) (hh : 0 < h) (hH : 0 < H) (hKN : K ≤ N) :
+    Qerr e S H h r K ≤ Qerr e S H h r N := by
+  unfold Qerr
+  have h1 : (r + e * (|S| + K * H)) / h ≤ (r + e * (|S| + N * H)) / h := by
+    apply div_le_div_of_nonneg_right _ hh.le
+    have : K * H ≤ N * H := mul_le_mul_of_nonneg_right hKN hH.le
+    nlinarith
+  have h2 : (1 + e) ^ 2 * ((r + e * (|S| + K * H)) / h) ≤ (1 + e) ^ 2 * ((r + e * (|S| + N * H)) / h) :=
+    mul_le_mul_of_nonneg_left h1 (by positivity)
+  have h3 : (2 * e + e ^ 2) * K ≤ (2 * e + e ^ 2) * N := mul_le_mul_of_nonneg_left hKN (by positivity)
+  linarith
+
+theorem Derr_mono (e S H s h K N : ℚ) (he : 0 ≤ e) (hh : 0 < h) (hH : 0 < H) (hKN : K ≤ N) :
+    Derr e S H s h K ≤ Derr e S H s h N := by
+  unfold Derr
+  have h1 : h * K ≤ h * N := mul_le_mul_of_nonneg_left hKN hh.le
+  have h2 : K * H ≤ N * H := mul_le_mul_of_nonneg_right hKN hH.le
+  have h3 : e * ((1 + e) * h * K + |s|) ≤ e * ((1 + e) * h * N + |s|) := by
+    apply mul_le_mul_of_nonneg_left _ he
+    have : (1 + e) * (h * K) ≤ (1 + e) * (h * N) := mul_le_mul_of_nonneg_left h1 (by positivity)
+    nlinarith
+  have h4 : e * h * K ≤ e * h * N := by
+    have := mul_le_mul_of_nonneg_left h1 he
+    nlinarith
+  have h5 : e * (|S| + K * H) ≤ e * (|S| + N * H) := mul_le_mul_of_nonneg_left (by linarith) he
+  linarith
+
+theorem Grid.g_abs_le (G : Grid) (N : ℕ) (k : ℕ) (hk : k ≤ N) : |G.g (k:ℤ)| ≤ G.M N := by
+  unfold Grid.g Grid.M
+  have hH := G.H_pos
+  have h1 := abs_add_le G.S ((k:ℤ) * G.H)
+  have h2 : |((k:ℤ):ℚ) * G.H| = (k:ℚ) * G.H := by
+    rw [abs_of_nonneg]; · push_cast; ring
+    · push_cast; positivity
+  have h3 : (k:ℚ) * G.H ≤ (N:ℚ) * G.H := mul_le_mul_of_nonneg_right (by exact_mod_cast hk) hH.le
+  linarith
+
+theorem Grid.g_succ (G : Grid) (k : ℕ) : G.g ((k + 1 : ℕ) : ℤ) = G.g (k:ℤ) + G.H := by
+  unfold Grid.g; push_cast; ring
+
+/-- one bare float addition `label k + dt` lands within `r` of the next grid point. -/
+theorem step_err (F : Fl) (G : Grid) (N : ℕ) (r : ℚ) (B : Budget F G N r) (k : ℕ) (hk : k ≤ N) :
+    |F.fl (label F G k + G.h F) - G.g ((k + 1 : ℕ) : ℤ)| ≤ r := by
+  have e0 := F.u_nonneg
+  have hH := G.H_pos
+  have hM := G.g_abs_le N k hk
+  have hM0 : 0 ≤ G.M N := le_trans (abs_nonneg _) hM
+  have hh := B.h_pos
+  set e := F.u
+  set h := G.h F with hhd
+  set y := label F G k + h with hy
+  have l1 : |label F G k - G.g k| ≤ e * |G.g (k:ℤ)| := F.err _
+  have l2 : |label F G k| ≤ (1 + e) * |G.g (k:ℤ)| := F.abs_le _
+  have l3 : |h - G.H| ≤ e * G.H := by
+    have := F.err G.H; rwa [abs_of_pos hH] at this
+  have y1 : |y| ≤ (1 + e) * |G.g (k:ℤ)| + h := by
+    have := abs_add_le (label F G k) h
+    rw [abs_of_pos hh] at this; linarith
+  have y2 := F.err y
+  have y3 : |y - G.g ((k + 1 : ℕ) : ℤ)| ≤ e * |G.g (k:ℤ)| + e * G.H := by
+    rw [G.g_succ]
+    have e1 : y - (G.g k + G.H) = (label F G k - G.g k) + (h - G.H) := by rw [hy]; ring
+    rw [e1]
+    have := abs_add_le (label F G k - G.g k) (h - G.H)
+    linarith
+  have y4 := abs_sub_le (F.fl y) y (G.g ((k + 1 : ℕ) : ℤ))
+  have y5 : e * |y| ≤ e * ((1 + e) * |G.g (k:ℤ)| + h) := mul_le_mul_of_nonneg_left y1 e0
+  have y6 : e * ((1 + e) * |G.g (k:ℤ)|) ≤ e * ((1 + e) * G.M N) :=
+    mul_le_mul_of_nonneg_left (mul_le_mul_of_nonneg_left hM (by positivity)) e0
+  have y7 : e * |G.g (k:ℤ)| ≤ e * G.M N := mul_le_mul_of_nonneg_left hM e0
+  have := B.hR
+  nlinarith
+
+/-- neighbouring labels are strictly ordered. -/
+theorem label_lt_succ (F : Fl) (G : Grid) (N : ℕ) (r : ℚ) (B : Budget F G N r) (k : ℕ) (hk : k + 1 ≤ N) :
+    label F G k < label F G ((k + 1 : ℕ) : ℤ) := by
+  have e0 := F.u_nonneg
+  have hM1 := G.g_abs_le N k (by omega)
+  have hM2 := G.g_abs_le N (k + 1) hk
+  have l1 := abs_le.mp (F.err (G.g (k:ℤ)))
+  have l2 := abs_le.mp (F.err (G.g ((k + 1 : ℕ) : ℤ)))
+  have hs := G.g_succ k
+  have := B.hSep
+  have y7 : F.u * |G.g (k:ℤ)| ≤ F.u * G.M N := mul_le_mul_of_nonneg_left hM1 e0
+  have y8 : F.u * |G.g ((k + 1 : ℕ) : ℤ)| ≤ F.u * G.M N := mul_le_mul_of_nonneg_left hM2 e0
+  unfold label
+  linarith [l1.2, l2.1]
+
+theorem label_mono (F : Fl) (G : Grid) (j k : ℕ) (h : j ≤ k) : label F G j ≤ label F G k := by
+  apply F.mono
+  unfold Grid.g
+  have hH := G.H_pos
+  have : ((j:ℤ):ℚ) * G.H ≤ ((k:ℤ):ℚ) * G.H := mul_le_mul_of_nonneg_right (by exact_mod_cast h) hH.le
+  linarith
+
+/-- the loop body's last line takes `label k` to `label (k+1)`. -/
+theorem advance_label (F : Fl) (G : Grid) (N : ℕ) (r : ℚ) (B : Budget F G N r) (k : ℕ) (hk : k + 1 ≤ N) :
+    advance F.fl (G.s F) (G.h F) G.p (label F G k) = label F G ((k + 1 : ℕ) : ℤ) := by
+  unfold advance
+  have hKN : |(((k + 1 : ℕ) : ℤ) : ℚ)| ≤ (N:ℚ) := by
+    rw [abs_of_nonneg (by positivity)]; exact_mod_cast hk
+  apply normalize_near F G _ _ r B.h_pos (step_err F G N r B k (by omega))
+  · exact lt_of_le_of_lt (Qerr_mono _ _ _ _ _ _ _ F.u_nonneg B.h_pos G.H_pos hKN) B.hQ
+  · exact lt_of_le_of_lt (Derr_mono _ _ _ _ _ _ _ F.u_nonneg B.h_pos G.H_pos hKN) B.hD
+
+theorem timerangeLoop_spec (F : Fl) (G : Grid) (n : ℕ) (r : ℚ) (B : Budget F G (n + 1) r) :
+    ∀ (d j : ℕ), j + d = n + 1 → ∀ fuel, d + 1 ≤ fuel → ∀ acc,
+      timerangeLoop F.fl (G.s F) (label F G n) (G.h F) G.p false fuel (label F G j) acc
+        = some (acc ++ (List.range' j d).map (fun i : ℕ => label F G (i:ℤ))) := by
+  intro d
+  induction d with
+  | zero =>
+    intro j hj fuel hf acc
+    obtain ⟨f, rfl⟩ : ∃ f, fuel = f + 1 := ⟨fuel - 1, by omega⟩
+    have hj' : j = n + 1 := by omega
+    subst hj'
+    have hlt := label_lt_succ F G (n + 1) r B n (le_refl _)
+    rw [timerangeLoop, if_neg (not_le.mpr hlt)]
+    simp
+  | succ d ih =>
+    intro j hj fuel hf acc
+    obtain ⟨f, rfl⟩ : ∃ f, fuel = f + 1 := ⟨fuel - 1, by omega⟩
+    have hjn : j ≤ n := by omega
+    rw [timerangeLoop, if_pos (label_mono F G j n hjn)]
+    rw [advance_label F G (n + 1) r B j (by omega)]
+    rw [if_pos (Or.inr rfl)]
+    rw [ih (j + 1) (by omega) f (by omega)]
+    simp [List.range'_succ]
+
+/-- **timerange_spec**: `timerange(start, start+n·dt, dt, exclusive=False)` is exactly one label per grid
+point `0 … n`, in order — for every `n`. -/
+theorem timerange_spec (F : Fl) (G : Grid) (n : ℕ) (r : ℚ) (B : Budget F G (n + 1) r) (fuel : ℕ) (hf : n + 2 ≤ fuel) :
+    timerangeP F.fl fuel (G.s F) (label F G n) (G.h F) G.p false
+      = some ((List.range (n + 1)).map (fun i : ℕ => label F G (i:ℤ))) := by
+  unfold timerangeP
+  have := timerangeLoop_spec F G n r B (n + 1) 0 (by omega) fuel (by omega) []
+  have h0 : label F G ((0 : ℕ) : ℤ) = G.s F := by simpa using label_zero F G
+  rw [h0] at this
+  simpa [List.range_eq_range'] using this
+
+
+theorem label_lt (F : Fl) (G : Grid) (N : ℕ) (r : ℚ) (B : Budget F G N r) (j k : ℕ) (hjk : j < k) (hk : k ≤ N) :
+    label F G j < label F G k := by
+  induction k with
+  | zero => omega
+  | succ k ih =>
+    have h1 := label_lt_succ F G N r B k hk
+    by_cases hj : j = k
+    · subst hj; exact h1
+    · exact lt_trans (ih (by omega) (by omega)) h1
+
+/-- the labels of a run are strictly increasing: no duplicates, nothing out of order. -/
+theorem labels_increasing (F : Fl) (G : Grid) (n : ℕ) (r : ℚ) (B : Budget F G (n + 1) r) :
+    ((List.range (n + 1)).map (fun i : ℕ => label F G (i:ℤ))).Pairwise (· < ·) := by
+  rw [List.pairwise_map]
+  have h := List.pairwise_lt_range (n := n + 1)
+  refine List.Pairwise.imp_of_mem ?_ h
+  intro a b ha hb hab
+  rw [List.mem_range] at ha hb
+  exact label_lt F G (n + 1) r B a b hab (by omega)
+
+/-! ### memo keys: route independence -/
+
+/-- **route_independent**: whatever arithmetic produced `x₁` and `x₂`, if both are within `r` of grid
+point `k` they are normalised to the same key `label k` … -/
+theorem route_independent (F : Fl) (G : Grid) (N : ℕ) (r : ℚ) (B : Budget F G N r) (k : ℕ) (hk : k ≤ N)
+    (x₁ x₂ : ℚ) (h₁ : |x₁ - G.g k| ≤ r) (h₂ : |x₂ - G.g k| ≤ r) :
+    memoKey F.fl (G.s F) (G.h F) G.p x₁ = label F G k ∧ memoKey F.fl (G.s F) (G.h F) G.p x₂ = label F G k := by
+  have hKN : |(((k : ℕ) : ℤ) : ℚ)| ≤ (N:ℚ) := by
+    rw [abs_of_nonneg (by positivity)]; exact_mod_cast hk
+  have hQ := lt_of_le_of_lt (Qerr_mono _ G.S G.H _ r _ _ F.u_nonneg B.h_pos G.H_pos hKN) B.hQ
+  have hD := lt_of_le_of_lt (Derr_mono _ G.S G.H (G.s F) _ _ _ F.u_nonneg B.h_pos G.H_pos hKN) B.hD
+  exact ⟨normalize_near F G x₁ k r B.h_pos h₁ hQ hD, normalize_near F G x₂ k r B.h_pos h₂ hQ hD⟩
+
+/-- … hence `Model.memoize` (look the key up, else evaluate the equation *at the key* and store) returns
+the same value: the result is a function of the key alone. -/
+theorem route_independent_value {V : Type} (F : Fl) (G : Grid) (N : ℕ) (r : ℚ) (B : Budget F G N r) (k : ℕ)
+    (hk : k ≤ N) (x₁ x₂ : ℚ) (h₁ : |x₁ - G.g k| ≤ r) (h₂ : |x₂ - G.g k| ≤ r) (valueAtKey : ℚ → V) :
+    valueAtKey (memoKey F.fl (G.s F) (G.h F) G.p x₁) = valueAtKey (memoKey F.fl (G.s F) (G.h F) G.p x₂) := by
+  obtain ⟨a, b⟩ := route_independent F G N r B k hk x₁ x₂ h₁ h₂
+  rw [a, b]
+
+/-! ### the session clock -/
+
+/-- **clock_normalised_exact**: a clock advanced by `normalize(c + dt)` visits `label 0, label 1, …`
+exactly and stops after `label n` — for every number of calls. -/
+theorem clock_normalised_exact (c : Cfg) (hc : c.stepClockNormalised = true) (F : Fl) (G : Grid) (n : ℕ) (r : ℚ)
+    (B : Budget F G (n + 1) r) :
+    ∀ (calls d j : ℕ), j + d = n + 1 →
+      sessionClocks c F.fl (G.s F) (label F G n) (G.h F) G.p calls (label F G j)
+        = (List.range' j (min calls d)).map (fun i : ℕ => label F G (i:ℤ)) := by
+  intro calls
+  induction calls with
+  | zero => intro d j _; simp [sessionClocks]
+  | succ calls ih =>
+    intro d j hj
+    rw [sessionClocks]
+    cases d with
+    | zero =>
+      have hj' : j = n + 1 := by omega
+      subst hj'
+      rw [if_pos (label_lt_succ F G (n + 1) r B n (le_refl _))]
+      simp
+    | succ d =>
+      have hjn : j ≤ n := by omega
+      rw [if_neg (not_lt.mpr (label_mono F G j n hjn))]
+      have hnext : sessionNext c F.fl (G.s F) (G.h F) G.p (label F G j) = label F G ((j + 1 : ℕ) : ℤ) := by
+        unfold sessionNext
+        rw [if_pos hc]
+        exact advance_label F G (n + 1) r B j (by omega)
+      rw [hnext, ih d (j + 1) (by omega), Nat.succ_min_succ, List.range'_succ]
+      simp
+
+theorem session_clocks_spec (c : Cfg) (hc : c.stepClockNormalised = true) (F : Fl) (G : Grid) (n : ℕ) (r : ℚ)
+    (B : Budget F G (n + 1) r) (calls : ℕ) :
+    sessionClocks c F.fl (G.s F) (label F G n) (G.h F) G.p calls (G.s F)
+      = (List.range (min calls (n + 1))).map (fun i : ℕ => label F G (i:ℤ)) := by
+  have := clock_normalised_exact c hc F G n r B calls (n + 1) 0 (by omega)
+  have h0 : label F G ((0 : ℕ) : ℤ) = G.s F := by simpa using label_zero F G
+  rw [h0] at this
+  simpa [List.range_eq_range'] using this
+
+/-- one `run_step` at clock value `G'.s` (the label of the decimal `G'.S`) returns exactly that one key. -/
+theorem session_step_keys (c : Cfg) (hc : c.simBoundInclusive = true) (F : Fl) (G' : Grid) (r : ℚ)
+    (B : Budget F G' 1 r) (fuel : ℕ) (hf : 2 ≤ fuel) :
+    sessionStepKeys c F.fl fuel (G'.h F) G'.p (G'.s F) = some [G'.s F] := by
+  unfold sessionStepKeys simTimes
+  rw [if_pos hc]
+  have := timerange_spec F G' 0 r B fuel hf
+  have h0 : label F G' ((0 : ℕ) : ℤ) = G'.s F := by simpa using label_zero F G'
+  have h0' : label F G' 0 = G'.s F := label_zero F G'
+  simpa [h0'] using this
+
+/-! ### the property -/
+
+/-- **C05 at full strength** for the code variant described by `c`: for every admissible rounding `F`,
+every decimal grid `G`, every number of steps `n` (and every fuel that lets the loop finish):
+the batch run, the plot and the session report exactly `label 0 … label n`, each session step returns
+exactly its own label, and any two floats near the same grid point get the same memo key. -/
+def C05_full (c : Cfg) : Prop :=
+  ∀ (F : Fl) (G : Grid) (n : ℕ) (r : ℚ), Budget F G (n + 1) r → ∀ fuel, n + 2 ≤ fuel →
+    simTimes c F.fl fuel (G.s F) (label F G n) (G.h F) G.p
+        = some ((List.range (n + 1)).map (fun i : ℕ => label F G (i:ℤ))) ∧
+    plotTimes c F.fl fuel (G.s F) (label F G n) (G.h F) G.p
+        = some ((List.range (n + 1)).map (fun i : ℕ => label F G (i:ℤ))) ∧
+    (∀ calls, sessionClocks c F.fl (G.s F) (label F G n) (G.h F) G.p calls (G.s F)
+        = (List.range (min calls (n + 1))).map (fun i : ℕ => label F G (i:ℤ))) ∧
+    (∀ G' : Grid, Budget F G' 1 r → sessionStepKeys c F.fl fuel (G'.h F) G'.p (G'.s F) = some [G'.s F]) ∧
+    (∀ (k : ℕ) (x₁ x₂ : ℚ), k ≤ n + 1 → |x₁ - G.g k| ≤ r → |x₂ - G.g k| ≤ r →
+        memoKey F.fl (G.s F) (G.h F) G.p x₁ = label F G k ∧ memoKey F.fl (G.s F) (G.h F) G.p x₂ = label F G k)
+
+theorem C05_full_of_good (c : Cfg) (h : c.good = true) : C05_full c := by
+  have h' : c.simBoundInclusive = true ∧ c.plotBoundInclusive = true ∧ c.stepClockNormalised = true := by
+    unfold Cfg.good at h
+    simp only [Bool.and_eq_true] at h
+    exact ⟨h.1.1, h.1.2, h.2⟩
+  obtain ⟨h1, h2, h3⟩ := h'
+  intro F G n r B fuel hf
+  refine ⟨?_, ?_, ?_, ?_, ?_⟩
+  · unfold simTimes; rw [if_pos h1]; exact timerange_spec F G n r B fuel hf
+  · unfold plotTimes; rw [if_pos h2]; exact timerange_spec F G n r B fuel hf
+  · exact session_clocks_spec c h3 F G n r B
+  · intro G' B'; exact session_step_keys c h1 F G' r B' fuel (by omega)
+  · intro k x₁ x₂ hk h₁ h₂; exact route_independent F G (n + 1) r B k hk x₁ x₂ h₁ h₂
+
+/-- What holds whatever the probes say: `util.timerange` itself, the memo key and the strict order of the
+labels do not depend on the three call sites. -/
+theorem C05_partial (F : Fl) (G : Grid) (n : ℕ) (r : ℚ) (B : Budget F G (n + 1) r) (fuel : ℕ) (hf : n + 2 ≤ fuel) :
+    timerangeP F.fl fuel (G.s F) (label F G n) (G.h F) G.p false
+        = some ((List.range (n + 1)).map (fun i : ℕ => label F G (i:ℤ))) ∧
+    ((List.range (n + 1)).map (fun i : ℕ => label F G (i:ℤ))).Pairwise (· < ·) ∧
+    (∀ (k : ℕ) (x₁ x₂ : ℚ), k ≤ n + 1 → |x₁ - G.g k| ≤ r → |x₂ - G.g k| ≤ r →
+        memoKey F.fl (G.s F) (G.h F) G.p x₁ = memoKey F.fl (G.s F) (G.h F) G.p x₂) := by
+  refine ⟨timerange_spec F G n r B fuel hf, labels_increasing F G n r B, ?_⟩
+  intro k x₁ x₂ hk h₁ h₂
+  obtain ⟨a, b⟩ := route_independent F G (n + 1) r B k hk x₁ x₂ h₁ h₂
+  rw [a, b]
 
 
 end Bptk.C05
